@@ -138,6 +138,8 @@ fn witnesses() -> Vec<(&'static str, &'static str, &'static str)> {
         ("entry-point-called-in-a-match-arm", "fn again(n: int32) -> unit { match n { 0 => (), _ => main() } }\nfn main() { string_println(\"m\"); again(0) }\n", "m\n"),
         ("entry-point-spawned", "fn again(n: int32) -> unit { if n > 0 { go main } else { () } }\nfn main() { string_println(\"m\"); again(0) }\n", "m\n"),
         ("entry-point-in-a-tuple", "fn again(n: int32) -> unit { if n > 0 { let t = (main(), 1); () } else { () } }\nfn main() { string_println(\"m\"); again(0) }\n", "m\n"),
+        // `#` (the separator of composed names) and `_` are both written `_`: two methods whose type and method names split differently
+        ("method-names-split-differently", "struct A { k: int32 }\nstruct A_A { k: int32 }\nimpl A { fn A_A_b(self: A) -> int32 { self.k } }\nimpl A_A { fn b(self: A_A) -> int32 { self.k + 10 } }\nfn main() { let x = A { k: 1 }; let y = A_A { k: 2 }; string_println(int32_to_string(x.A_A_b() + y.b())) }\n", "13\n"),
         ("shadow-builtin-fn", "fn string_len(s: string) -> int32 { 99 }\nfn main() { string_println(int32_to_string(string_len(\"ab\"))) }\n", "99\n"),
     ]
 }
